@@ -6,6 +6,8 @@ import (
 	"path/filepath"
 	"strings"
 	"sync"
+	"sync/atomic"
+	"time"
 
 	"verif/drv"
 	"verif/kit"
@@ -167,6 +169,46 @@ var c17SymOutDirs = []string{"sym-a-outside", "sym-a-sentinel", "sym-unknown-sen
 // c17RootMu serialises the cases that probe shared names at the filesystem root.
 var c17RootMu sync.Mutex
 
+// c17AggregatePlace marks the one pseudo-case that genC17 emits last: it carries the aggregate
+// non-vacuity assertion (kit's Finish hook runs after the exit code is decided and cannot fail a run).
+const c17AggregatePlace = "aggregate-nonvacuity"
+
+// c17Agg is the run-wide state behind the aggregate assertion.
+var c17Agg struct {
+	emitted     int64 // real cases emitted by genC17 (0: no enumeration ran in this process, e.g. --replay)
+	done        int64 // real cases finished
+	wroteInside int64 // extractions that changed something inside the output directory (or printed a file to stdout)
+	plainRun    int64 // executions of the plain control {a,file}, same-dir, empty out, file source, no options
+	plainOK     int64 // ... that produced <out>/a with the expected content
+}
+
+// c17Plain is the plain control: the one extraction result the repository's own suite pins
+// (a named file of a directory root lands under that name in the output directory).
+var c17Plain = C17Case{E1: C17Entry{Name: "a", Kind: "file"}, Place: "same-dir", OutDir: "empty"}
+
+func c17IsPlain(cs C17Case) bool {
+	return cs.E2 == nil && cs.E1 == c17Plain.E1 && cs.Place == "same-dir" && cs.OutDir == "empty" && !cs.Stdin && cs.Path == "" && cs.OutArg == "" && cs.Drop == ""
+}
+
+// c17Aggregate is the aggregate non-vacuity assertion: a tool, an encoder or a harness that never
+// extracts anything would make the containment oracle pass vacuously.
+func c17Aggregate(x *kit.Ctx) {
+	if atomic.LoadInt64(&c17Agg.emitted) == 0 {
+		// replayed alone: execute the plain control here
+		runC17(c17Plain, x)
+	} else {
+		for dl := time.Now().Add(20 * time.Minute); atomic.LoadInt64(&c17Agg.done) < atomic.LoadInt64(&c17Agg.emitted) && time.Now().Before(dl); {
+			time.Sleep(20 * time.Millisecond)
+		}
+	}
+	if atomic.LoadInt64(&c17Agg.wroteInside) == 0 {
+		x.Fail("c17:nonvacuity:nothing-extracted", "no extraction of the whole run wrote anything inside its output directory: the containment oracle is vacuous (%d cases)", atomic.LoadInt64(&c17Agg.done))
+	}
+	if atomic.LoadInt64(&c17Agg.plainOK) == 0 {
+		x.Fail("c17:nonvacuity:plain-control", "the plain control (directory root with the file entry \"a\", empty output directory) did not produce <out>/a with its content in any of its %d execution(s): the containment oracle is vacuous", atomic.LoadInt64(&c17Agg.plainRun))
+	}
+}
+
 func c17Dirish(e C17Entry) bool { return e.Kind == "dir" || e.Kind == "hdir" }
 
 func (e C17Entry) content() []byte { return []byte("EVIL-CONTENT-" + e.Name) }
@@ -210,6 +252,11 @@ func c17Plant(dir string) {
 
 func runC17(c any, x *kit.Ctx) {
 	cs := c.(C17Case)
+	if cs.Place == c17AggregatePlace {
+		c17Aggregate(x)
+		return
+	}
+	defer atomic.AddInt64(&c17Agg.done, 1)
 	// top/                 snapshot root: sentinel, outside/keep, x, up-sentinel, the archive
 	// top/c17sandbox/      working directory of the tool: sentinel, outside/keep, x
 	// top/c17sandbox/out   the output directory (nested: out/sub, symlinked: outlink -> realout)
@@ -451,11 +498,14 @@ func runC17(c any, x *kit.Ctx) {
 	// a symlink placed in out may point anywhere, that is allowed; but nothing may have been
 	// written THROUGH it: covered by the snapshot of everything outside out.
 
-	// positive controls: the benign single-entry archives must really be extracted (a tool or an
-	// encoder that never extracts anything would make the containment oracle vacuous)
-	c17Control(cs, x, r, target, sandbox)
-
 	wrote := len(drv.DiffSnapshots(inBefore, inAfter)) > 0 || (cs.OutArg == "dash" && len(r.Stdout) > 0)
+	if wrote {
+		atomic.AddInt64(&c17Agg.wroteInside, 1)
+	}
+	// positive controls: what the benign single-entry archives produce. The statement says nothing
+	// about WHAT is extracted, so a deviation is an outcome (beyond-statement), never a violation;
+	// non-vacuity is asserted once for the whole run by c17Aggregate.
+	c17Control(cs, x, r, target, sandbox, inBefore, inAfter)
 	guard := strings.Contains(string(r.Stderr), "redirect through symlinks") || strings.Contains(string(r.Stderr), "refusing to write")
 	x.State(c17Key(cs))
 	oc := fmt.Sprintf("exit=%d", r.Exit)
@@ -477,9 +527,17 @@ func runC17(c any, x *kit.Ctx) {
 	}
 }
 
-// c17Control checks the expected result of the benign single-entry cases {a, kind} extracted
-// into an empty output directory.
-func c17Control(cs C17Case, x *kit.Ctx, r drv.RunResult, target, sandbox string) {
+// c17Control looks at the result of the benign single-entry cases {a, kind} extracted into an
+// empty output directory. Nothing here can fail the run: the property statement is about where
+// extraction writes, not about what it produces. The result is recorded as
+//   - counter controls_as_expected: the result of the current go-car;
+//   - outcome beyond-statement:control-variant:<what>: another result a correct tool may give
+//     (another name for a nameless root, a refusal without any write, a link that is not planted);
+//   - outcome beyond-statement:c17:control:<place>:<kind>: anything else (the former violation
+//     signature, kept as the outcome's name), with the first message under details.
+//
+// The plain control additionally feeds the aggregate assertion (c17Aggregate).
+func c17Control(cs C17Case, x *kit.Ctx, r drv.RunResult, target, sandbox string, inBefore, inAfter map[string]string) {
 	if cs.E2 != nil || cs.E1.Name != "a" || cs.OutDir != "empty" || cs.Drop != "" {
 		return
 	}
@@ -510,12 +568,66 @@ func c17Control(cs C17Case, x *kit.Ctx, r drv.RunResult, target, sandbox string)
 	default:
 		return
 	}
-	sig := "c17:control:" + cs.Place + ":" + cs.E1.Kind
+	kind := cs.E1.Kind
+	if strings.HasPrefix(kind, "sym:") {
+		kind = "symlink"
+	}
+	sig := "c17:control:" + cs.Place + ":" + kind
+	ok := func() { x.Count("controls_as_expected", 1) }
+	variant := func(what string) {
+		x.Outcome("beyond-statement:control-variant:" + what)
+		x.Count("controls_legal_variant", 1)
+	}
+	deviate := func(format string, args ...any) {
+		x.Outcome("beyond-statement:" + sig)
+		x.Count("controls_deviating", 1)
+		x.Note("control deviation "+sig, clipS(fmt.Sprintf(format, args...), 600))
+	}
+	// what appeared inside the output directory
+	var created, createdNonDir []string
+	for k, v := range inAfter {
+		if _, was := inBefore[k]; !was {
+			created = append(created, k)
+			if v != "dir" {
+				createdNonDir = append(createdNonDir, k)
+			}
+		}
+	}
+	unchanged := len(drv.DiffSnapshots(inBefore, inAfter)) == 0
+	// refusals of the whole archive or option before anything is written: legal for inputs whose
+	// acceptance only the current code (not the statement, the documentation or the suite) fixes
+	refused := func() bool {
+		if !unchanged || r.Exit == 0 || (cs.OutArg == "dash" && len(r.Stdout) > 0) {
+			return false
+		}
+		switch {
+		case cs.Place == "same-dir-plainpb":
+			variant("non-unixfs-root-refused")
+		case cs.Path == "/a/":
+			variant("path-trailing-slash-rejected")
+		default:
+			return false
+		}
+		return true
+	}
+	if c17IsPlain(cs) {
+		atomic.AddInt64(&c17Agg.plainRun, 1)
+		if got, err := os.ReadFile(filepath.Join(target, rel)); err == nil && string(got) == string(cs.E1.content()) {
+			atomic.AddInt64(&c17Agg.plainOK, 1)
+		}
+	}
 	if cs.OutArg == "dash" {
 		switch cs.E1.Kind {
 		case "file", "raw0", "rawfile":
-			if string(r.Stdout) != string(cs.E1.content()) {
-				x.Fail(sig, "benign control: extraction to stdout printed %q, want %q (exit %d, stderr %s)", clipS(string(r.Stdout), 100), cs.E1.content(), r.Exit, clipS(string(r.Stderr), 300))
+			switch {
+			case string(r.Stdout) == string(cs.E1.content()):
+				ok()
+			case refused():
+			case len(r.Stdout) == 0 && r.Exit != 0 && unchanged && cs.Place != "root-file" && cs.Path == "":
+				// a directory cannot be written to stdout; only a single addressed file can
+				variant("directory-to-stdout-refused")
+			default:
+				deviate("benign control: extraction to stdout printed %q, want %q (exit %d, stderr %s)", clipS(string(r.Stdout), 100), cs.E1.content(), r.Exit, clipS(string(r.Stderr), 300))
 			}
 		}
 		return
@@ -524,19 +636,38 @@ func c17Control(cs C17Case, x *kit.Ctx, r drv.RunResult, target, sandbox string)
 	switch {
 	case cs.E1.Kind == "file" || cs.E1.Kind == "raw0" || cs.E1.Kind == "rawfile":
 		got, err := os.ReadFile(p)
-		if err != nil || string(got) != string(cs.E1.content()) || r.Exit != 0 {
-			x.Fail(sig, "benign control: %s not extracted as expected: content %q err %v (exit %d, stderr %s)", p, got, err, r.Exit, clipS(string(r.Stderr), 300))
+		switch {
+		case err == nil && string(got) == string(cs.E1.content()):
+			ok()
+		case refused():
+		case cs.Place == "root-file" && len(created) == 1 && !strings.Contains(created[0], "/") && inAfter[created[0]] == drv.FileDigest(cs.E1.content()):
+			// a bare file root has no name: any single new file directly in the output directory will do
+			variant("bare-root-file-name")
+		default:
+			deviate("benign control: %s not extracted as expected: content %q err %v; created %v (exit %d, stderr %s)", p, got, err, created, r.Exit, clipS(string(r.Stderr), 300))
 		}
 	case c17Dirish(cs.E1):
 		got, err := os.ReadFile(filepath.Join(p, "inner"))
-		if err != nil || string(got) != "inner" || r.Exit != 0 {
-			x.Fail(sig, "benign control: %s/inner not extracted as expected: content %q err %v (exit %d, stderr %s)", p, got, err, r.Exit, clipS(string(r.Stderr), 300))
+		switch {
+		case err == nil && string(got) == "inner":
+			ok()
+		case refused():
+		default:
+			deviate("benign control: %s/inner not extracted as expected: content %q err %v; created %v (exit %d, stderr %s)", p, got, err, created, r.Exit, clipS(string(r.Stderr), 300))
 		}
 	case strings.HasPrefix(cs.E1.Kind, "sym:"):
 		want := strings.Replace(strings.TrimPrefix(cs.E1.Kind, "sym:"), "ABS", sandbox, 1)
 		got, err := os.Readlink(p)
-		if err != nil || got != want || r.Exit != 0 {
-			x.Fail("c17:control:"+cs.Place+":symlink", "benign control: symlink %s not created as expected: target %q err %v, want %q (exit %d, stderr %s)", p, got, err, want, r.Exit, clipS(string(r.Stderr), 300))
+		_, lerr := os.Lstat(p)
+		switch {
+		case err == nil && got == want:
+			ok()
+		case lerr != nil && len(createdNonDir) == 0 && want != "a" && want != ".":
+			// a link whose target leaves the output directory need not be planted (skipped or refused)
+			variant("escaping-symlink-not-created")
+		case refused():
+		default:
+			deviate("benign control: symlink %s not created as expected: target %q err %v, want %q; created %v (exit %d, stderr %s)", p, got, err, want, created, r.Exit, clipS(string(r.Stderr), 300))
 		}
 	}
 }
@@ -893,7 +1024,9 @@ func genC17(tier string, emit func(any)) {
 		pairs(sp, sp, []string{"same-dir", "two-roots"}, C17Case{OutDir: od, Stdin: true})
 		pairs(s.pmin, bare(s.bareKinds), []string{"dir-root+file-root"}, C17Case{OutDir: od, Stdin: true})
 	}
-	_ = n
+	// 6. last: the aggregate non-vacuity assertion over all the cases above
+	atomic.StoreInt64(&c17Agg.emitted, int64(n))
+	emit(C17Case{Place: c17AggregatePlace})
 }
 
 func init() {
@@ -903,13 +1036,24 @@ func init() {
 		Run:    runC17,
 		Setup:  func(string) error { return drv.BuildCar() },
 		Decode: kit.DecodeAs[C17Case],
+		Finish: func(tier string, extra map[string]any) {
+			extra["nonvacuity"] = map[string]any{
+				"cases":                         atomic.LoadInt64(&c17Agg.emitted),
+				"extractions_that_wrote_inside": atomic.LoadInt64(&c17Agg.wroteInside),
+				"plain_control_executions":      atomic.LoadInt64(&c17Agg.plainRun),
+				"plain_control_produced_file":   atomic.LoadInt64(&c17Agg.plainOK),
+				"asserted_by":                   "the last case (place " + c17AggregatePlace + "): signatures c17:nonvacuity:nothing-extracted, c17:nonvacuity:plain-control",
+			}
+		},
 		Rule: "every UnixFS archive with at most two hostile entries (deviation bound 2) built with an own dag-pb encoder (unsorted/duplicate names expressible) and extracted by the REAL car binary. " +
 			"CORE (complete product): names {a, .., ., a/b, ../x, /abs, empty, unknown, a/../../x} x kinds {file, directory, symlink to ../sentinel | absolute sentinel | .. | . | a | ../outside | absolute outside} in the placements {same directory, two roots, parent/child, non-directory roots} x output directory {empty, holding file a, holding directory a} (+ stdin source for the empty one); a missing output directory with a reduced matrix (the tool refuses it before writing). " +
 			"EXTENSIONS (explicit reduced matrices, all fully enumerated): names {absolute path into the sandbox, absolute path into the outside directory, ../../c17-up, ../../x} and kinds {dangling symlink ../fresh | absolute fresh | ../freshdir, two-level targets ../../sentinel | ../../outside, raw-codec leaf, UnixFS Raw node, sharded (HAMT) sub-directory} as set X, paired in both orders with the partner set P = {a, .., a/b, ../x, unknown} x {file, dir, ../sentinel, ../outside} + X; " +
 			"placements {directory root + bare root and reversed (the bare root lands on <out>/unknown), both entries inside a sub-directory, one-level and two-level hand-encoded HAMT root, non-UnixFS dag-pb root}; output directories that already hold a symlink {a->../outside, a->../sentinel, unknown->../sentinel, a->../fresh (dangling), d->../outside}; " +
 			"options: --path {accepted: a, /a/, a/a, a/unknown, a/inner, unknown, d, d/a, d/unknown; rejected: .., ., a/.., a//b, ../a} crossed with the pairs carrying the first segment's name; output argument form {relative, absolute, omitted (cwd), ., trailing slash, out/../out, nested out/sub with sentinels in out, symlink to the real directory, - (stdout)}; one block missing {entry 1, entry 2, root} from file and stdin; stdin with non-directory roots and pre-populated output directories. " +
 			"ORACLE: recursive snapshot (names, types, contents, link targets) of the sandbox's PARENT directory (sentinels at both levels, the archive itself) minus the output directory is unchanged; the name /abs is realised as a per-worker private root-level path that must not appear; with '-' the root-level names of the entries must not appear; " +
-			"positive controls: the benign archive {a, kind} alone must be extracted to the expected place in every placement/output form (no vacuous pass when nothing is ever extracted); non-trivial = archive with two hostile entries whose extraction wrote inside the output directory or was refused by a symlink guard",
+			"NON-VACUITY (one aggregate assertion, evaluated by the last case once every other case has finished): some extraction of the run wrote inside its output directory AND the plain control (directory root with the file entry a, empty output directory, file source, no options) produced <out>/a with its content. " +
+			"positive controls (recorded, never violations - the statement does not say what is extracted): the benign archive {a, kind} alone in every placement/output form is classified as expected (counter controls_as_expected), legal variant (outcome beyond-statement:control-variant:<what>: other name for a bare file root, directory refused on stdout, escaping link not planted, non-UnixFS root or trailing-slash --path refused before any write; exit status ignored) or deviating (outcome beyond-statement:c17:control:<place>:<kind>, message under details); " +
+			"non-trivial = archive with two hostile entries whose extraction wrote inside the output directory or was refused by a symlink guard",
 		Bound: func(tier string) map[string]any {
 			s := c17SetsFor(tier)
 			return map[string]any{"hostile_entries": 2, "names": len(s.names), "kinds": len(s.kinds), "core_entries": len(s.core),
@@ -919,7 +1063,9 @@ func init() {
 				"stdin": "core pairs with empty output directory (thorough), controls, missing blocks, non-directory roots, pre-populated output directories"}
 		},
 		Assumptions: []string{
-			"exit status of car extract is irrelevant to the property (only the positive controls look at it)",
+			"exit status and error text of car extract are irrelevant to the property (the control classification uses the exit status only to recognise a refusal that wrote nothing; the guard counters match two error texts and feed outcomes only)",
+			"what a benign archive extracts to (names, link creation, stdout dumps, acceptance of non-UnixFS roots or of a trailing slash in --path) is beyond the statement: deviations are outcomes; the run fails for vacuity only if nothing at all was written inside any output directory or the plain control {a,file} did not produce <out>/a",
+			"the hand-encoded HAMT and non-UnixFS placements are accepted by the current go-unixfsnode; a stricter decoder turns those cases into refusals (still checked for containment) and shows up as control outcomes, not violations",
 			"the extension alphabets, new placements, symlink-holding output directories and options are crossed by the reduced matrices stated in the rule, not by the complete product",
 			"HAMT shards are hand-encoded without real hash placement (go-unixfsnode's iterator does not check it); --path lookups, which need the placement, are not combined with shards",
 			"writes at the filesystem root are observed only for the per-worker name standing for /abs and, with '-', for the first components of the entry names; everything else is observed up to the parent of the working directory",
